@@ -79,7 +79,8 @@ PROPS = {
         level_text="Partial by nature: a pure Coq model has no schedules. Proved: a write-set analysis regenerated from the source on every run shows no function assigns, aliases or mutates a package-level variable, no WriteTo/Precedence method assigns through its receiver, and Compile/Build/ToString/constructors never assign through the compiler, builder, tree or options they receive (theorems = the generated lists are empty); requesting a source map never changes code or panic behaviour (all trees, all configurations); the debug string of a statement is its compact compilation. Concurrency (16 goroutines, race detector) and shared-object interleavings are explored by the iso oracle/suite, not proved.",
         level_note="Trusted: Coq kernel, translator xjs2v and in particular its syntactic effects analysis (sees assignments, ++/--, delete/clear/maps.Copy destinations and plain aliasing; not reflection/unsafe), extraction, harness/driver. The Go memory model argument 'no shared mutable state => no data race' is outside Coq.",
         technique="Coq proof over the writer model + generated write-set lemmas + correspondence; goroutine exploration as search",
-        suites=[dict(suite="print", n_quick=1500, n_thorough=50000, what="trees x compiler configurations: code, map, panic")],
+        suites=[dict(suite="writer", n_quick=3000, n_thorough=100000, what="random histories of the exported CodeWriter methods: buffer, indent level, mappings"),
+                dict(suite="print", n_quick=1500, n_thorough=50000, what="trees x compiler configurations: code, map, panic")],
         oracle=False,
         explanation="C14: C14_no_global_writes, C14_printing_is_pure, C14_map_flag_neutral, C14_debug_string; schedules explored only.",
         open_statements=["data-race freedom under goroutine interleavings (explored with -race, cannot be exhibited by a Gallina model)"],
@@ -90,7 +91,8 @@ PROPS = {
         level_text="Writer-level clauses proved for every operation history on the CodeWriter model (CR-free text): the mapper always stands at the line/column of the end of the buffer, pending whitespace and comments included; a mapping is recorded at the position where the next text starts; segments are sorted by generated position. The segment-to-lexeme clause (each segment links the same token in source and output) is explored by the oracle with an independent Source Map decoder; encoding conformance is C09, token start positions are C10.",
         level_note="Trusted: Coq kernel, translator xjs2v (WriteTo bodies), extraction, harness/driver correspondence (print and smap suites compare Code, Mappings and Names). Modelled not verified: CodeWriter and compiler.Compile post-processing.",
         technique="Coq proof (invariant over writer operation histories) + model/implementation correspondence",
-        suites=[dict(suite="print", n_quick=1500, n_thorough=50000, what="trees x compiler configurations: code, mappings, names, panic"),
+        suites=[dict(suite="writer", n_quick=3000, n_thorough=100000, what="random histories of the exported CodeWriter methods: buffer, indent level, mappings"),
+                dict(suite="print", n_quick=1500, n_thorough=50000, what="trees x compiler configurations: code, mappings, names, panic"),
                 dict(suite="smap", n_quick=1000, n_thorough=50000, what="SourceMapper histories")],
         oracle=False,
         explanation="C08 (writer clauses): C08_writer_position, C08_mapping_at_token_start, C08_sorted.",
@@ -102,7 +104,8 @@ PROPS = {
         level_text="Proved for all trees over the printer regenerated from ast.go and the writer model: the semicolon option is read only by the statement-terminator operation (output without semicolons = output with them of the same operations minus the terminators), and indentation options made of blanks change only leading whitespace of lines (through cleanEmptyLines). Same-tree and idempotence clauses are explored by the oracle (they need the lexer/printer round trip).",
         level_note="Trusted: Coq kernel, translator xjs2v (WriteTo bodies), extraction, harness/driver correspondence (print suite over all option combinations). Modelled not verified: CodeWriter and cleanEmptyLines (strings.TrimSpace modelled on ASCII white space).",
         technique="Coq proof (simulation of two writer runs; structural invariant of the generated printer) + model/implementation correspondence",
-        suites=[dict(suite="print", n_quick=2000, n_thorough=50000, what="trees x compiler configurations: code",
+        suites=[dict(suite="writer", n_quick=3000, n_thorough=100000, what="random histories of the exported CodeWriter methods: buffer, indent level, mappings"),
+                dict(suite="print", n_quick=2000, n_thorough=50000, what="trees x compiler configurations: code",
                      projection=[(r" v=\d+ names=.*$", ""), (r" nomap$", "")])],
         oracle_n_quick=600, oracle_n_thorough=20000,
         explanation="C06 (layout clauses): C06_semi_only, C06_indent_only.",
